@@ -45,6 +45,12 @@ def check(ctx, F):
     check_copy_complete(ctx, F)
     check_rebind(ctx, F)
     check_output_defined(ctx, F)
+    # ... and what is *read* from caller memory is what the caller handed over: replay reads transitions[i] for i < count only (C09.replay)
+    from . import C09, C03, C18
+    if any(bb.get("cls") == "StreamBufferT" and bb["name"] == "clear" for bb in F.bodies.values()):
+        C18._FN["F"] = F
+        C18.check_buffer_clear(ctx, F, "C10.output-defined")
+    C09.check_replay_bounds(ctx, F, "C10.output-defined")
 
 
 def reachable(F, fid, limit=200000):
